@@ -2,7 +2,8 @@
 
    Transliterated (M-model), line by line:
      finders.py      _is_path_valid, find_location (prefix is always "" because get_component_dirs returns Paths),
-                     list
+                     find (all=False / all=True over `locations`), list
+     Django          collectstatic's first-destination-wins bookkeeping, staticfiles.views.serve (normpath + lstrip + find)
      app_settings.py STATIC_FILES_ALLOWED / STATIC_FILES_FORBIDDEN incl. the deprecated `forbidden_static_files`
                      (defaults are GENERATED from the source: Gen/C17.v)
      util/misc.py    any_regex_match / no_regex_match
@@ -157,18 +158,105 @@ Inductive fres :=
 | FSuspicious            (* SuspiciousFileOperation raised by safe_join *)
 | FUnmodelled.           (* relative component dir: the loader refuses those (ValueError), abspath would need the cwd *)
 
-(* find_location(root, path, prefix="") *)
-Definition find_location (c : config) (root : str) (t : tree) (path : str) : fres :=
+(* find_location(root, path, prefix="") against the set `w` of existing paths *)
+Definition find_in (c : config) (root : str) (w : list str) (path : str) : fres :=
   if negb (starts_with [SLASH] root) then FUnmodelled
   else match safe_join root path with
        | None => FSuspicious
        | Some q =>
            let rel_path := relpath q root in
-           if path_exists (world root t) q && is_path_valid c rel_path then FFound q else FNotFound
+           if path_exists w q && is_path_valid c rel_path then FFound q else FNotFound
        end.
+
+(* one existing component directory with the tree below it *)
+Definition find_location (c : config) (root : str) (t : tree) (path : str) : fres :=
+  find_in c root (world root t) path.
 
 (* [path for path, storage in finder.list([])] for one location, in the order of `files` *)
 Definition finder_list (c : config) (t : tree) : list str := filter (is_path_valid c) (files t).
+
+(* ---------- several component directories (COMPONENTS.dirs + app dirs) ---------- *)
+(* `finder.locations`, in its order.  loc_present = os.path.isdir(root): directories named in COMPONENTS.dirs need not exist *)
+Record location := { loc_root : str; loc_present : bool; loc_tree : tree }.
+
+Definition loc_world (l : location) : list str :=
+  if loc_present l then world (loc_root l) (loc_tree l) else [].
+
+Definition find_loc (c : config) (l : location) (path : str) : fres :=
+  find_in c (loc_root l) (loc_world l) path.
+
+(* finder.find(path)  (all=False): the first location with a match wins; an exception raised on the way propagates *)
+Fixpoint find_first (c : config) (locs : list location) (path : str) : fres :=
+  match locs with
+  | [] => FNotFound
+  | l :: r => match find_loc c l path with
+              | FNotFound => find_first c r path
+              | other => other
+              end
+  end.
+
+(* finder.find(path, all=True): the matches of every location, in order; any SuspiciousFileOperation propagates *)
+Inductive fares :=
+| FAll (qs : list str)
+| FASuspicious
+| FAUnmodelled.
+
+Fixpoint find_all (c : config) (locs : list location) (path : str) : fares :=
+  match locs with
+  | [] => FAll []
+  | l :: r => match find_loc c l path with
+              | FSuspicious => FASuspicious
+              | FUnmodelled => FAUnmodelled
+              | FNotFound => find_all c r path
+              | FFound q => match find_all c r path with FAll qs => FAll (q :: qs) | e => e end
+              end
+  end.
+
+(* [(storage.location, path) for path, storage in finder.list([])]: location by location, missing directories skipped *)
+Definition list_loc (c : config) (l : location) : list (str * str) :=
+  if loc_present l then map (pair (loc_root l)) (finder_list c (loc_tree l)) else [].
+
+Definition finder_list_all (c : config) (locs : list location) : list (str * str) :=
+  flat_map (list_loc c) locs.
+
+(* collectstatic: `found_files` - the first (location, path) pair seen for a relative path is copied, later ones are ignored *)
+Fixpoint collect (seen : list str) (l : list (str * str)) : list (str * str) :=
+  match l with
+  | [] => []
+  | (r, f) :: rest => if existsb (str_eqb f) seen then collect seen rest
+                      else (r, f) :: collect (f :: seen) rest
+  end.
+
+Definition collected (c : config) (locs : list location) : list (str * str) :=
+  collect [] (finder_list_all c locs).
+
+(* the dev server: django.contrib.staticfiles.views.serve(request, path):
+     normalized = posixpath.normpath(path).lstrip("/");  absolute = finders.find(normalized)  -> 404 when nothing is found;
+     django.views.static.serve then answers 404 for a directory and streams a regular file *)
+Fixpoint lstrip_slash (s : str) : str :=
+  match s with
+  | x :: r => if N.eqb x SLASH then lstrip_slash r else s
+  | [] => []
+  end.
+
+Definition serve_lookup (p : str) : str := lstrip_slash (normpath p).
+
+Definition is_file_of (l : location) (q : str) : bool :=
+  loc_present l && existsb (fun f => str_eqb q (loc_root l ++ SLASH :: f)) (files (loc_tree l)).
+
+Inductive sres :=
+| SFile (q : str)        (* 200, body = content of the regular file q *)
+| S404
+| SSuspicious            (* SuspiciousFileOperation (400 in a running server) *)
+| SUnmodelled.
+
+Definition serve (c : config) (locs : list location) (p : str) : sres :=
+  match find_first c locs (serve_lookup p) with
+  | FFound q => if existsb (fun l => is_file_of l q) locs then SFile q else S404
+  | FNotFound => S404
+  | FSuspicious => SSuspicious
+  | FUnmodelled => SUnmodelled
+  end.
 
 (* ---------- concrete compiled patterns used by the correspondence (hand matchers, no regex engine) ---------- *)
 Inductive cre :=
@@ -195,15 +283,48 @@ Definition fres_eqb (a b : fres) : bool :=
   | _, _ => false
   end.
 
-(* one directory tree, several configurations:
-   (root, tree, lookup paths, [(config, find result per lookup, list() result sorted)]) ; `files` is sorted *)
-Definition finder_case := (str * tree * list str * list (config * list fres * list str))%type.
+Definition fares_eqb (a b : fares) : bool :=
+  match a, b with
+  | FAll x, FAll y => list_eqb str_eqb x y
+  | FASuspicious, FASuspicious => true
+  | FAUnmodelled, FAUnmodelled => true
+  | _, _ => false
+  end.
+
+Definition sres_eqb (a b : sres) : bool :=
+  match a, b with
+  | SFile x, SFile y => str_eqb x y
+  | S404, S404 => true
+  | SSuspicious, SSuspicious => true
+  | SUnmodelled, SUnmodelled => true
+  | _, _ => false
+  end.
+
+Definition pair_str_eqb (a b : str * str) : bool := pair_eqb str_eqb str_eqb a b.
+
+(* one physical layout, several configurations:
+   (finder.locations with the tree below each, lookup paths,
+    [(config, per lookup (find(p), find(p, all=True)), list([]) as (storage.location, path) - sorted inside a location)]) *)
+Definition finder_case :=
+  (list location * list str * list (config * list (fres * fares) * list (str * str)))%type.
 Definition check_finder (c : finder_case) : bool :=
-  let '(root, t, lookups, obs) := c in
-  forallb (fun o : config * list fres * list str =>
+  let '(locs, lookups, obs) := c in
+  forallb (fun o : config * list (fres * fares) * list (str * str) =>
              let '(cfg, finds, listed) := o in
-             list_eqb fres_eqb (map (find_location cfg root t) lookups) finds
-             && list_eqb str_eqb (finder_list cfg t) listed) obs.
+             list_eqb (pair_eqb fres_eqb fares_eqb)
+                      (map (fun p => (find_first cfg locs p, find_all cfg locs p)) lookups) finds
+             && list_eqb pair_str_eqb (finder_list_all cfg locs) listed) obs.
+
+(* dev server and collectstatic on one layout:
+   (locations, [(config, [(request path, observed answer)], files collectstatic copies as (source location, path))]) *)
+Definition served_case :=
+  (list location * list (config * list (str * sres) * list (str * str)))%type.
+Definition check_served (c : served_case) : bool :=
+  let '(locs, obs) := c in
+  forallb (fun o : config * list (str * sres) * list (str * str) =>
+             let '(cfg, reqs, coll) := o in
+             forallb (fun r : str * sres => sres_eqb (serve cfg locs (fst r)) (snd r)) reqs
+             && list_eqb pair_str_eqb (collected cfg locs) coll) obs.
 
 (* _is_path_valid on plain strings: (config, [(name, observed)]) *)
 Definition valid_case := (config * list (str * bool))%type.
